@@ -37,6 +37,7 @@ var (
 	plan   []Fault
 	counts = map[string]int{}
 	fired  int
+	reads  = map[string]int{} // local path -> number of Read calls on files opened through this implementation
 )
 
 // Set installs a fault plan and zeroes the counters.
@@ -45,7 +46,19 @@ func Set(p []Fault) {
 	plan = p
 	counts = map[string]int{}
 	fired = 0
+	reads = map[string]int{}
 	mu.Unlock()
+}
+
+// ReadPaths returns, per local path, how many Read calls were made since Set.
+func ReadPaths() map[string]int {
+	mu.Lock()
+	defer mu.Unlock()
+	m := map[string]int{}
+	for k, v := range reads {
+		m[k] = v
+	}
+	return m
 }
 
 // Counts returns the number of operations seen per kind since Set.
@@ -109,7 +122,7 @@ func (impl) Open(ctx context.Context, path string, opts ...file.Opts) (file.File
 	if err != nil {
 		return nil, err
 	}
-	return &wrapped{File: f}, nil
+	return &wrapped{File: f, path: strip(path)}, nil
 }
 
 func (impl) Create(ctx context.Context, path string, opts ...file.Opts) (file.File, error) {
@@ -162,6 +175,7 @@ func (errLister) Info() file.Info { return nil }
 
 type wrapped struct {
 	file.File
+	path string
 }
 
 func (w *wrapped) Stat(ctx context.Context) (file.Info, error) {
@@ -172,7 +186,7 @@ func (w *wrapped) Stat(ctx context.Context) (file.Info, error) {
 }
 
 func (w *wrapped) Reader(ctx context.Context) io.ReadSeeker {
-	return &reader{w.File.Reader(ctx)}
+	return &reader{w.File.Reader(ctx), w.path}
 }
 
 func (w *wrapped) Writer(ctx context.Context) io.Writer {
@@ -193,9 +207,15 @@ func (w *wrapped) Discard(ctx context.Context) {
 	w.File.Discard(ctx)
 }
 
-type reader struct{ io.ReadSeeker }
+type reader struct {
+	io.ReadSeeker
+	path string
+}
 
 func (r *reader) Read(p []byte) (int, error) {
+	mu.Lock()
+	reads[r.path]++
+	mu.Unlock()
 	if fail, short := hit("read"); fail {
 		if short && len(p) > 1 {
 			n, _ := r.ReadSeeker.Read(p[:len(p)/2])
